@@ -9,6 +9,7 @@ import (
 	"strings"
 
 	"github.com/cloudwego/dynamicgo/thrift"
+	"github.com/cloudwego/dynamicgo/vsync"
 
 	"verif/checks/tutil"
 	"verif/engine/core"
@@ -38,6 +39,7 @@ const (
 	gStrings
 	gHeaders
 	gEnvelope
+	gPooled
 	gFixed
 )
 
@@ -71,7 +73,7 @@ func shapeGroups(tier string) []shapeGroup {
 }
 
 func (check) Groups(tier string, seed int64) []string {
-	g := []string{"bool-byte", "i16", "i32", "i64", "double", "strings", "headers", "envelope"}
+	g := []string{"bool-byte", "i16", "i32", "i64", "double", "strings", "headers", "envelope", "pooled-objects"}
 	for _, sg := range shapeGroups(tier) {
 		g = append(g, sg.name)
 	}
@@ -312,6 +314,8 @@ func (check) Enumerate(tier string, seed int64, group int, yield func(core.Case)
 		enumHeaders(yield)
 	case gEnvelope:
 		enumEnvelopes(tier, yield)
+	case gPooled:
+		enumPooled(yield)
 	default:
 		sgs := shapeGroups(tier)
 		sg := sgs[group-gFixed]
@@ -898,4 +902,96 @@ func growFirstString(v *tbin.Val, n int) bool {
 		}
 	}
 	return false
+}
+
+// enumPooled: the protocol objects handed out by NewBinaryProtocol / NewBinaryProtocolBuffer come from a pool.
+// History of length 2 on the pool (deterministic LIFO pools): a first reader / writer over a value of size n1
+// is used and recycled (Recycle / FreeBinaryProtocolBuffer), then a second one writes and reads a value of size
+// n2: read(write(x)) == x with the cursor at the end, whatever the first object left behind. Sizes on both
+// sides of 4 KiB (the default buffer), 64 KiB and 1 MiB.
+func enumPooled(yield func(core.Case) bool) {
+	sizes := []int{0, 1, 100, 4095, 4096, 4097, 65535, 65536, 65537, 1 << 20}
+	for _, n1 := range sizes {
+		for _, n2 := range []int{0, 1, 100, 5000} {
+			for _, how := range []string{"reader+Recycle", "reader+Free", "writer+Free", "writer+Recycle"} {
+				n1, n2, how := n1, n2, how
+				c := core.Case{Tag: "pooled", Desc: func() interface{} {
+					return map[string]interface{}{"op": "pooled protocol object reuse", "first": how, "first_payload_bytes": n1, "second_payload_bytes": n2}
+				}, Run: func() core.Result {
+					r := core.Result{Class: "ok", Key: fmt.Sprintf("pooled|%s|%d|%d", how, n1, n2)}
+					vsync.Controlled = true
+					vsync.Reset()
+					defer func() { vsync.Controlled = false }()
+					mk := func(n int, b byte) []byte {
+						s := make([]byte, n)
+						for i := range s {
+							s[i] = b + byte(i%7)
+						}
+						return s
+					}
+					pi := core.Catch(func() {
+						// first object
+						w := thrift.NewBinaryProtocolBuffer()
+						w.WriteBinary(mk(n1, 'a'))
+						enc1 := append([]byte{}, w.Buf...)
+						switch how {
+						case "writer+Free":
+							thrift.FreeBinaryProtocolBuffer(w)
+						case "writer+Recycle":
+							w.Recycle()
+						default:
+							thrift.FreeBinaryProtocolBuffer(w)
+							rd := thrift.NewBinaryProtocol(enc1)
+							got, err := rd.ReadBinary(true)
+							if err != nil || !bytes.Equal(got, mk(n1, 'a')) || rd.Read != len(enc1) {
+								r.Add("pooled|first-reader|readback-differs", "first reader over %d bytes: err=%v read=%d of %d", n1, err, rd.Read, len(enc1))
+							}
+							if how == "reader+Recycle" {
+								rd.Recycle()
+							} else {
+								thrift.FreeBinaryProtocolBuffer(rd)
+							}
+						}
+						want := mk(n2, 'k')
+						// second object, variant A: a pooled READER is the very next user of the pool
+						{
+							enc := tbin.Bytes(tbin.Bin(want))
+							rdA := thrift.NewBinaryProtocol(enc)
+							got, err := rdA.ReadBinary(true)
+							if err != nil || !bytes.Equal(got, want) || rdA.Read != len(enc) {
+								r.Add("pooled|next-reader|readback-differs", "after %s over %d bytes: the next pooled reader over %d bytes: err=%v cursor=%d want %d equal=%v", how, n1, n2, err, rdA.Read, len(enc), bytes.Equal(got, want))
+							}
+							rdA.Recycle()
+						}
+						// variant B: write, then read through a pooled reader
+						w2 := thrift.NewBinaryProtocolBuffer()
+						if err := w2.WriteBinary(want); err != nil {
+							r.Add("pooled|second-writer|error", "%v", err)
+						}
+						enc2 := append([]byte{}, w2.Buf...)
+						if ref := tbin.Bytes(tbin.Bin(want)); !bytes.Equal(enc2, ref) {
+							r.Add("pooled|second-writer|bytes-differ", "after %s over %d bytes: wrote %x.. want %x..", how, n1, enc2[:min(len(enc2), 16)], ref[:min(len(ref), 16)])
+						}
+						thrift.FreeBinaryProtocolBuffer(w2)
+						rd2 := thrift.NewBinaryProtocol(enc2)
+						got, err := rd2.ReadBinary(true)
+						if err != nil || !bytes.Equal(got, want) || rd2.Read != len(enc2) {
+							r.Add("pooled|second-reader|readback-differs", "after %s over %d bytes: reading %d bytes: err=%v cursor=%d want %d equal=%v", how, n1, n2, err, rd2.Read, len(enc2), bytes.Equal(got, want))
+						}
+						rd2.Recycle()
+					})
+					if pi != nil {
+						r.Add("pooled|panic@"+pi.Site+":"+core.PanicClass(pi.Val), "%s\n%s", pi.Val, pi.Stack)
+					}
+					if len(r.Viol) > 0 {
+						r.Class = "violation"
+					}
+					return r
+				}}
+				if !yield(c) {
+					return
+				}
+			}
+		}
+	}
 }
